@@ -87,6 +87,7 @@ class Repo:
             tree = ast.parse(src, filename=path)
         except (SyntaxError, UnicodeDecodeError) as e:
             raise AnalysisError(f"cannot parse {path}: {e}")
+        _strip_noops(tree)
         rel = os.path.relpath(path, self.root)
         mod = Module(name, path, rel, src, tree, hashlib.sha256(raw).hexdigest()[:16])
         self._index(mod)
@@ -191,6 +192,29 @@ class Repo:
             with open(self.grammar_path, "rb") as f:
                 d[os.path.relpath(self.grammar_path, self.root)] = hashlib.sha256(f.read()).hexdigest()[:16]
         return d
+
+
+def _strip_noops(tree: ast.AST) -> None:
+    """Remove expression statements that are bare constants (docstrings, `...`, stray literals): they have no
+    behaviour, and rules that look at "the first statement of a body" should not depend on them."""
+    for n in ast.walk(tree):
+        for name in ("body", "orelse", "finalbody"):
+            b = getattr(n, name, None)
+            if isinstance(b, list) and b and isinstance(b[0], ast.stmt):
+                kept = [s for s in b if not (isinstance(s, ast.Expr) and isinstance(s.value, ast.Constant))]
+                if not kept and name == "body":
+                    p = ast.Pass()
+                    ast.copy_location(p, b[0])
+                    kept = [p]
+                setattr(n, name, kept)
+        if isinstance(n, ast.Try):
+            for h in n.handlers:
+                kept = [s for s in h.body if not (isinstance(s, ast.Expr) and isinstance(s.value, ast.Constant))]
+                if not kept:
+                    p = ast.Pass()
+                    ast.copy_location(p, h.body[0])
+                    kept = [p]
+                h.body = kept
 
 
 def _blocks(st):
